@@ -234,6 +234,85 @@ def _locate(fn: ast.FunctionDef, match: Matcher, nth: int | None, site: str) -> 
     return found[nth]
 
 
+
+# ---------------------------------------------------------------------------------------------------------------
+# code that runs outside every catch-all handler: only calls the model knows as sites (or that cannot raise) may appear
+# ---------------------------------------------------------------------------------------------------------------
+KNOWN_UNGUARDED: dict[str, set[str]] = {
+    # _ConnectionShm.refresh is called from serve_one after validation, outside any try
+    "_ConnectionShm.refresh": {"req_md.get", "_maybe_attach_shm", "self.close"},
+    # name.decode() / int(size) are the *_shm_meta sites (own handler), ShmSegment.attach the *_attach sites
+    "_maybe_attach_shm": {"req_md.get", "_logger.warning", "shm_name_bytes.decode", "int", "ShmSegment.attach"},
+    # _read_request itself: reading/draining the stream (pre-drain sites), then delegation; the _decode_request call
+    # under the catch-all is skipped, the one in the flag-off branch is not
+    "_read_request": {"ValidatedReader", "ipc.open_stream", "reader.read_next_batch_with_custom_metadata", "_drain_stream", "_decode_request", "RpcError", "type"},
+    # serve_one between parameter validation and the end of the call
+    "RpcServer.serve_one:tail": {"_current_request_metadata.get", "req_md.get", "isinstance", "shm_cache.refresh", "_maybe_attach_shm",
+                                 "self._serve_unary", "self._serve_stream"},
+}
+
+
+def _catches_all(t: ast.Try) -> bool:
+    for h in t.handlers:
+        if h.type is None or (isinstance(h.type, ast.Name) and h.type.id in ("Exception", "BaseException")):
+            return True
+    return False
+
+
+def _calls_outside_catch_all(stmts: list[ast.stmt]) -> list[tuple[str, int]]:
+    out: list[tuple[str, int]] = []
+
+    def visit(node: ast.AST) -> None:
+        if isinstance(node, (ast.FunctionDef, ast.AsyncFunctionDef, ast.Lambda, ast.ClassDef)):
+            return
+        if isinstance(node, ast.Try) and _catches_all(node):
+            for part in (*[b for h in node.handlers for b in h.body], *node.orelse, *node.finalbody):
+                visit(part)
+            return
+        if isinstance(node, ast.Call):
+            name = _dotted(node.func)
+            if name is None:
+                name = "<expr>." + node.func.attr if isinstance(node.func, ast.Attribute) else "<expr>"
+            out.append((name, node.lineno))
+        for child in ast.iter_child_nodes(node):
+            visit(child)
+
+    for st in stmts:
+        visit(st)
+    return out
+
+
+def unguarded_calls(F: dict[str, ast.FunctionDef]) -> list[tuple[str, list[str]]]:
+    so = F["RpcServer.serve_one"]
+    # the statement list that contains the validation try (the one calling _deserialize_params)
+    tail: list[ast.stmt] | None = None
+    for node in ast.walk(so):
+        for field in ("body", "orelse", "finalbody"):
+            stmts = getattr(node, field, None)
+            if not isinstance(stmts, list):
+                continue
+            for i, st in enumerate(stmts):
+                if isinstance(st, ast.Try) and any(isinstance(b, ast.Expr) and call_to("_deserialize_params")(b.value) for b in st.body):
+                    if tail is not None:
+                        raise TranslationBroken("serve_one", "more than one validation try")
+                    tail = stmts[i + 1:]
+    if tail is None:
+        raise TranslationBroken("serve_one", "validation try (the one calling _deserialize_params) not found")
+    regions = {
+        "_ConnectionShm.refresh": F["_ConnectionShm.refresh"].body,
+        "_maybe_attach_shm": F["_maybe_attach_shm"].body,
+        "_read_request": F["_read_request"].body,
+        "RpcServer.serve_one:tail": tail,
+    }
+    out = []
+    for rname, stmts in regions.items():
+        found = _calls_outside_catch_all(stmts)
+        for name, line in found:
+            if name not in KNOWN_UNGUARDED[rname]:
+                raise TranslationBroken(f"{rname}:{line}", f"call `{name}(...)` runs outside every catch-all handler and is not a site the model knows")
+        out.append((rname, sorted({n for n, _ in found})))
+    return out
+
 # ---------------------------------------------------------------------------------------------------------------
 # the sites
 # ---------------------------------------------------------------------------------------------------------------
@@ -339,6 +418,7 @@ def site_stacks(repo: Path) -> tuple[list[tuple[str, list[tuple[str, Level]]]], 
     else:
         if first_line["meta_rpc"] < pre[-1]:
             raise TranslationBroken("_read_request", "request validation starts before the request stream is drained")
+    site_stacks.unguarded = unguarded_calls(F)  # type: ignore[attr-defined]
     return out, flag
 
 
@@ -382,6 +462,9 @@ def module(repo: Path) -> str:
     stacks, flag = site_stacks(repo)
     lines.insert(-2, "(* contain_decode_errors as it reaches _read_request on the socket path (None = no such parameter) *)")
     lines.insert(-2, "Definition gen_contain_decode_errors : option bool := " + ("None" if flag is None else f"Some {str(flag).lower()}") + ".")
+    ug = site_stacks.unguarded  # type: ignore[attr-defined]
+    lines.insert(-2, "(* calls that run outside every catch-all handler (all of them are sites of the model or cannot raise; checked by the translator) *)")
+    lines.insert(-2, "Definition gen_unguarded_calls : list (string * list string) := [" + "; ".join("(" + q(r) + ", [" + "; ".join(q(c) for c in cs) + "])" for r, cs in ug) + "].")
     for name, stack in stacks:
         lv = "; ".join(
             "(" + q(fn) + ", [" + "; ".join("([" + "; ".join(q(c) for c in cls) + "], (" + ("true" if w else "false") + ", " + q(end) + "))" for cls, w, end in lvl) + "])"
